@@ -9,7 +9,7 @@
 (* Records of one `case` (same type and same stimulus, different target / option set / prior object state)   *)
 (* are adjacent; `prev` carries the first outcome of the case: every later one must agree (oracle-free        *)
 (* metamorphic clause of C03, and the prior-state clause of C04).                                            *)
-EXTENDS DsdlWire, Json, IOUtils, TLC
+EXTENDS DsdlMeta, Json, IOUtils, TLC
 
 Trace == ndJsonDeserialize(IOEnv.TRACE_FILE)
 
@@ -72,7 +72,7 @@ CrossVerdict(r) ==
 
 Verdict(r, e) ==
     LET v == IF r.ev = "ser" THEN SerVerdict(r, e) ELSE IF r.ev = "des" THEN DesVerdict(r)
-             ELSE IF r.ev = "rt" THEN RtVerdict(r) ELSE MetaVerdict(r)
+             ELSE IF r.ev = "rt" THEN RtVerdict(r) ELSE IF r.ev = "metad" THEN MetaDeepVerdict(r) ELSE MetaVerdict(r)
     IN IF v # "ok" THEN v ELSE CrossVerdict(r)
 
 (* det flag for ser records is computed by the spec, not taken from the harness *)
